@@ -86,8 +86,15 @@ fn code_points(s: &[u8]) -> usize {
 fn secret_char(b: u8) -> bool {
     alnum(b) || b".=_-".contains(&b)
 }
-fn named_non_empty(s: &[u8]) -> bool {
-    !s.is_empty()
+/// The ASCII characters of `s` are in the set (non-ASCII is not restricted by the structure).
+fn ascii_in(s: &[u8], set: impl Fn(u8) -> bool) -> bool {
+    s.iter().all(|b| *b >= 128 || set(*b))
+}
+fn key_version_char(b: u8) -> bool {
+    alnum(b) || b == b'_'
+}
+fn base64_pad_char(b: u8) -> bool {
+    alnum(b) || b == b'+' || b == b'/' || b == b'='
 }
 
 fn struct_alias(s: &[u8]) -> bool {
@@ -120,13 +127,20 @@ pub fn structure(kind: Kind, s: &[u8]) -> bool {
                     || delimited(s, b'$', |lp| !lp.contains(&b':'), struct_server))
         }
         Kind::Mxc => mxc(s, struct_server, |m| m.iter().all(|b| media_char(*b))),
-        Kind::RoomVersion => !s.is_empty() && code_points(s) <= 32,
-        Kind::SigningKeyVersion | Kind::Base64PublicKey => !s.is_empty(),
-        Kind::ClientSecret | Kind::SessionId => !s.is_empty() && s.len() <= 255,
-        Kind::KeyAny => cut_at(s, b':', |a| !a.is_empty() && !a.contains(&b':'), |_| true),
-        Kind::KeyVersion | Kind::KeyBase64 => {
-            cut_at(s, b':', |a| !a.is_empty() && !a.contains(&b':'), named_non_empty)
+        Kind::RoomVersion => {
+            non_empty_all(s, |b| alnum(b) || b == b'.' || b == b'-') && code_points(s) <= 32
         }
+        Kind::SigningKeyVersion => !s.is_empty() && ascii_in(s, key_version_char),
+        Kind::Base64PublicKey => !s.is_empty() && ascii_in(s, base64_pad_char),
+        Kind::ClientSecret => !s.is_empty() && s.len() <= 255 && ascii_in(s, secret_char),
+        Kind::SessionId => non_empty_all(s, secret_char) && s.len() <= 255,
+        Kind::KeyAny => cut_at(s, b':', |a| !a.is_empty() && !a.contains(&b':'), |_| true),
+        Kind::KeyVersion => cut_at(s, b':', |a| !a.is_empty() && !a.contains(&b':'), |n| {
+            !n.is_empty() && ascii_in(n, key_version_char)
+        }),
+        Kind::KeyBase64 => cut_at(s, b':', |a| !a.is_empty() && !a.contains(&b':'), |n| {
+            !n.is_empty() && ascii_in(n, base64_pad_char)
+        }),
     }
 }
 
